@@ -13,13 +13,18 @@ pub fn add_ns(t: T, ns: u64) -> T {
     (t.0 + (ns / 1_000_000_000) as i64 + (total / 1_000_000_000) as i64, (total % 1_000_000_000) as u32)
 }
 
+pub fn add_ns128(t: T, ns: u128) -> T {
+    let total = t.1 as u128 + ns % 1_000_000_000;
+    (t.0 + (ns / 1_000_000_000) as i64 + (total / 1_000_000_000) as i64, (total % 1_000_000_000) as u32)
+}
+
 #[derive(Clone, Debug)]
 pub struct Action {
     pub sid: u32,
     pub req: usize,
     pub actor: Actor,
     pub target: u16,
-    pub period: Option<u64>,
+    pub period: Option<u128>,
     pub keyed: bool,
     pub via_action: bool,
     /// Possible first deadlines (more than one only when the request raced
@@ -36,7 +41,7 @@ impl Action {
     /// Deadline of occurrence `k` for first-deadline candidate `c`.
     pub fn occ(&self, c: usize, k: u64) -> T {
         match self.period {
-            Some(p) => add_ns(self.d0[c], p * k),
+            Some(p) => add_ns128(self.d0[c], p * k as u128),
             None => self.d0[c],
         }
     }
@@ -91,8 +96,8 @@ pub fn build(_case: &Case, h: &Hist) -> Agenda {
         let (period, keyed) = match r.mode {
             SchedMode::Plain => (None, false),
             SchedMode::Keyed(_) => (None, true),
-            SchedMode::Periodic(p) => (Some(p), false),
-            SchedMode::KeyedPeriodic(_, p) => (Some(p), true),
+            SchedMode::Periodic(p) => (Some(crate::case::period_ns(p)), false),
+            SchedMode::KeyedPeriodic(_, p) => (Some(crate::case::period_ns(p)), true),
         };
         let ret = r.ret.unwrap_or(u64::MAX);
         let d0: Vec<T> = match (r.abs, r.rel) {
